@@ -4,7 +4,7 @@
 (* k-th image in multi_tan / multi_wcs; the user's tile filter or the position generator during the dispatch       *)
 (* traversal of visit_leaves / transform).  k = NItems + 1: it raises where it should have ended.                  *)
 (*                                                                                                                 *)
-(* What the parent does then is a design choice (OnProdFault):                                                     *)
+(* What the parent does then is a design choice (react, chosen from Reactions):                                                   *)
 (*   "propagate"        as coded: the exception leaves the stage at once (the workers are left polling; they are   *)
 (*                      daemonic and die with the parent);                                                         *)
 (*   "wind-down-raise"  run the shutdown handshake for what was put (close, wait for the feeder, flag, joins),     *)
@@ -15,29 +15,31 @@
 (* have reached the end of the item stream by puts, not by abandoning it.                                          *)
 EXTENDS WorkQueue
 CONSTANTS ProdFaultAt,      \* the k's to choose from, a subset of 0..NItems+1; 0 = the producer's iterable is healthy
-          OnProdFault
+          Reactions         \* the reactions to choose from
 VARIABLES pfail,            \* the chosen k (frozen)
+          react,            \* the chosen reaction (frozen)
           pfired            \* the iterable has raised
-pvars == <<vars, pfail, pfired>>
+pvars == <<vars, pfail, react, pfired>>
 
 ASSUME ProdFaultAt \subseteq 0..(NItems + 1)
-ASSUME OnProdFault \in {"propagate", "wind-down-raise", "wind-down-return"}
+ASSUME Reactions \subseteq {"propagate", "wind-down-raise", "wind-down-return"}
 
-PInit == Init /\ pfail \in ProdFaultAt /\ pfired = FALSE
-Keep == UNCHANGED <<pfail, pfired>>
+\* (a healthy producer never reacts: one representative reaction for k = 0)
+PInit == Init /\ pfail \in ProdFaultAt /\ react \in (IF pfail = 0 THEN {CHOOSE r \in Reactions : TRUE} ELSE Reactions) /\ pfired = FALSE
+Keep == UNCHANGED <<pfail, react, pfired>>
 Healthy == pfired \/ next # pfail          \* the iterable yields (or ends) normally at the producer's current position
 
 \* the iterable raises instead of yielding item `next`
 PFail == /\ ppc = "put" /\ next = pfail /\ ~pfired
-         /\ pfired' = TRUE /\ UNCHANGED pfail
-         /\ IF OnProdFault = "propagate" THEN ppc' = "failed" /\ outcome' = "raised"
+         /\ pfired' = TRUE /\ UNCHANGED <<pfail, react>>
+         /\ IF react = "propagate" THEN ppc' = "failed" /\ outcome' = "raised"
             ELSE ppc' = "jointhread" /\ UNCHANGED outcome
          /\ UNCHANGED <<faults, next, buf, pipe, sem, rlock, doneEv, pjoin, wpc, witem, wflag, started, processed>>
 \* the last join: WorkQueue!PJoinW, which additionally re-raises the producer's exception unless it is swallowed
 PJoinWP == /\ ppc = "joinw" /\ pjoin \in Gone
            /\ IF pjoin < NW THEN pjoin' = pjoin + 1 /\ UNCHANGED <<ppc, outcome>>
               ELSE /\ UNCHANGED pjoin
-                   /\ IF (Checked /\ Dead # {}) \/ (pfired /\ OnProdFault # "wind-down-return")
+                   /\ IF (Checked /\ Dead # {}) \/ (pfired /\ react # "wind-down-return")
                       THEN ppc' = "failed" /\ outcome' = "raised"
                       ELSE ppc' = "returned" /\ outcome' = "returned"
            /\ UNCHANGED <<faults, next, buf, pipe, sem, rlock, doneEv, wpc, witem, wflag, started, processed>>
@@ -67,5 +69,5 @@ RaisedOnlyOnFaultP == outcome = "raised" => (Dead # {} \/ pfired)
 OnlyPutItems == Range(started) \subseteq 1..(next - 1)
 EndsP == <>(outcome # "running")
 ReturnsWhenHealthy == (faults = {} /\ pfail = 0) => <>(outcome = "returned")
-RaisesWhenProducerFails == (pfail # 0 /\ faults = {} /\ OnProdFault # "wind-down-return") => <>(outcome = "raised")
+RaisesWhenProducerFails == (pfail # 0 /\ faults = {} /\ react # "wind-down-return") => <>(outcome = "raised")
 =============================================================================
